@@ -146,6 +146,12 @@ def _uses_modes_directly(e: ast.AST, mt: "ModesTaint") -> bool:
 def _order_insensitive_test(test: ast.AST, mt: "ModesTaint", agg: Set[str]) -> bool:
     """The test mentions the mode tuple, but only inside len/min/max/sum/set(...) or through names bound to those."""
     mentions = False
+    # len(M) compared with the constant 0 or 1: a tuple with at most one element has one order
+    if isinstance(test, ast.Compare) and len(test.ops) == 1:
+        for a, b in ((test.left, test.comparators[0]), (test.comparators[0], test.left)):
+            if isinstance(b, ast.Constant) and isinstance(b.value, int) and b.value in (0, 1) and isinstance(a, ast.Call) \
+                    and (dotted(a.func) or "") == "len":
+                return False
     parents: Dict[int, ast.AST] = {}
     for n in ast.walk(test):
         for c in ast.iter_child_nodes(n):
